@@ -6,7 +6,7 @@ def ret_type(call_node):
     return field(field(call_node, "func"), "cpp_return_type")
 
 
-contract(TR + "query_ast_visitor.visit_function_ast", props=["C12", "C09"],
+contract(TR + "query_ast_visitor.visit_function_ast", props=["C12", "C09"], replay={"nothing_asked_for_is_dropped": "dropped_call_arguments"},
          params=dict(self=QV, call_node=RefOf("ast.Call")),
          requires=CVC_REQUIRES + [("func", "field(call_node, 'func') != None and isinst(field(call_node, 'func'), '" + CF + "FunctionAST')"),
                                   ("args", "all(a != None for a in field(call_node, 'args'))"),
@@ -15,6 +15,7 @@ contract(TR + "query_ast_visitor.visit_function_ast", props=["C12", "C09"],
          modifies=CVC_MODIFIES, may_raise=["Exception"], strict=False, result=VAL,
          ensures=CVC_ENSURES + [
              ("rep@C12", "result != None and is_new(result) and rep_of(call_node) == result"),
+             ("nothing_asked_for_is_dropped@C09", "len(field(call_node, 'keywords')) == 0"),
              ("call_text@C12", "startswith(expr_of(result), field(field(call_node, 'func'), 'cpp_name') + '(') and endswith(expr_of(result), ')')"),
              ("usable_in_arithmetic@C12", "isinst(type_of(result), 'func_adl_xAOD.common.cpp_types.terminal') and "
                                           "kind_of(result) == (u_str(ret_type(call_node)) if u_is_str(ret_type(call_node)) else "
